@@ -122,6 +122,41 @@ def run(prog, ctx):
             res.violate("C06.K", "C06.K|store", "a path through reduce_k does not store the new lg_k", rkf.id)
         else:
             res.undecided += 1
+    # reduce_k: an accumulator turns into a bit matrix only because the sketch *rebuilt at the smaller size* is no longer sparse:
+    # folding rows can merge coupons, so the coupon count of the old accumulator says nothing about the folded one
+    rk = C.fn_one(prog, "cpc::union::CpcUnion", "reduce_k")
+    if rk is not None:
+        srk = Sym(prog, rk)
+        for (ff, b, kind, place, rv, span, adt, fld) in sym.field_stores(prog, adt="cpc::union::CpcUnion", field="state", fns=[rk]):
+            if rv is None:
+                continue
+            try:
+                e = srk.at(b, "t").rvalue(rv)
+            except Exception:
+                continue
+            if not (e[0] in ("agg", "variant") and "BitMatrix" in show(e)[:24]):
+                continue
+            facts = srk.cmp_facts_at(b)
+            from_acc = any(t[0] == "false" and show(t[1]).startswith("discr(self.state") for t in facts)
+            if not from_acc:
+                continue
+            n_k += 1
+            res.obligations += 1
+
+            def on_old(t):
+                return any(y[0] == "field" and y[2] == "num_coupons" and "self.state" in show(y[1]) for z in t[1:] if isinstance(z, tuple) for y in sym.walk(z))
+
+            def on_new(t):
+                return any(y[0] == "call" and y[1] in prog.fns and prog.fns[y[1]].local_ty(0).endswith("CpcSketch") for z in t[1:] if isinstance(z, tuple) for y in sym.walk(z))
+            deciding = [t for t in facts if (on_old(t) or on_new(t)) and not (t[0] in ("Eq", "Ne") and any(isinstance(z, tuple) and z[:2] == ("const", 0) for z in t[1:]))]
+            if any(on_new(t) for t in deciding):
+                res.discharged += 1
+            elif deciding:
+                res.violate("C06.K", "C06.K|reduce_k|prefold", "%s switches the union to a bit matrix on the coupon count of the accumulator *before* it is folded to the smaller size (%s): "
+                            "coupons that collide modulo the new K shrink the count, and the union then holds a matrix for a sketch that should be sparse" % (
+                                rk.id, show(deciding[0][1])[:90]), rk.id, span)
+            else:
+                res.undecided += 1
     res.rule("C06.K", n_k, 1, "reduce_k call sites")
 
     # ---------------- C06.O OR-only stores, destination mask, call-site lg agreement
